@@ -9,7 +9,7 @@ from mirsym.values import *   # noqa
 from mirsym import models
 from .api import World, Outcome
 
-NATIVE_DIR = os.path.join(os.path.dirname(os.path.dirname(os.path.abspath(__file__))), 'native')
+NATIVE_DIR = os.environ.get('VERIF_NATIVE_DIR') or os.path.join(os.path.dirname(os.path.dirname(os.path.abspath(__file__))), 'native')
 
 
 def hx(b):
@@ -26,6 +26,10 @@ def unhx(s):
 class IntSym:
     def __init__(self, v):
         self.v = v
+
+
+class TimeSym(IntSym):
+    """a symbolic instant in an output line: printed as its seconds when < 1e9, else 'other' (as the native driver does)"""
 
 
 class SymBytes(bytes):
@@ -146,7 +150,10 @@ class ScriptRunner:
             for k, sv in enumerate(self.outsyms):
                 ph = '{%d}' % k
                 if ph in o:
-                    if isinstance(sv, IntSym):
+                    if isinstance(sv, TimeSym):
+                        n_ = val(sv.v)
+                        o = o.replace(ph, str(n_) if n_ < 1000000000 else 'other')
+                    elif isinstance(sv, IntSym):
                         o = o.replace(ph, str(val(sv.v)))
                     else:
                         o = o.replace(ph, hx(bytes(val(b) for b in sv)))
@@ -165,7 +172,13 @@ class ScriptRunner:
         if opt.variant == 'None':
             return 'none'
         x = opt.fields[0].fields[0]
-        return str(x) if type(x) is int and x < 1000000000 else 'other'
+        if type(x) is int:
+            return str(x) if x < 1000000000 else 'other'
+        if is_clock_reading(x):
+            return 'other'          # a clock reading: the clock model returns instants >= 1e9 s
+        k = len(self.outsyms)
+        self.outsyms.append(TimeSym(x))
+        return '{%d}' % k
 
     def run(self, text):
         out = []
